@@ -240,3 +240,61 @@ class process(ContractBase):
     @staticmethod
     def ghost_body(ex, args, line):
         ex.st.ghost['tw_proto'] = ex.st.heap[PP][args['self']]
+
+
+# ------------------------------------------------------------------------------------------------ message.receive (blocking socket side)
+SOCK = Ref('Socket')
+W.declare_fields('Socket', ghost_stream=BYTES)
+STREAM = 'Socket.ghost_stream'
+
+
+def _recv(ex, recv, args, kwargs, line):
+    """socket.recv(n): some non-empty prefix, at most n bytes long, of what the peer has sent and is still unread"""
+    n = ex._num(args[0])
+    s = ex.st.heap[STREAM][recv.t]
+    ex.vc('safe.recv-asks-for-something@%d' % line, n > 0, line)
+    k = ex.fresh('got', INT)
+    ex.assume(And(k >= 1, k <= n, k <= z3.Length(s)))
+    _set(ex, STREAM, recv.t, z3.SubSeq(s, k, z3.Length(s) - k), line)
+    return V(z3.SubSeq(s, 0, k), BYTES)
+
+
+W.methods[('Socket', 'recv')] = _recv
+
+
+@contract(W, 'dawgie/pl/message.py', 'receive', props=['C14'])
+class receive(ContractBase):
+    """however the bytes arrive (any fragmentation, and with the following messages already queued behind), receive()
+    consumes exactly one frame and returns its message"""
+    params = {'s': SOCK}
+    returns = MSG
+    modifies = [STREAM]
+    assumes = [lambda c: struct_axioms()]
+    locals = {'buf': BYTES, 'length': INT}
+
+    @staticmethod
+    def _frame(c):
+        S0 = c.old.f(STREAM, c['s'])
+        L = unpack_fn(z3.SubSeq(S0, 0, 4))
+        return S0, L
+
+    def requires(c):
+        S0, L = receive._frame(c)
+        return {'a-complete-frame-is-on-its-way': And(z3.Length(S0) >= 4, z3.Length(S0) >= 4 + L)}
+
+    def ensures(c):
+        S0, L = receive._frame(c)
+        return {'the-message-of-the-first-frame': c.result == loads_fn(z3.SubSeq(S0, 4, L)),
+                'exactly-one-frame-consumed': c.cur.f(STREAM, c['s']) == z3.SubSeq(S0, 4 + L, z3.Length(S0) - 4 - L)}
+
+    def _inv_head(c):
+        S0, L = receive._frame(c)
+        buf = c.loc('buf')
+        return {'read-so-far': And(z3.Concat(buf, c.cur.f(STREAM, c['s'])) == S0, z3.Length(buf) <= 4)}
+
+    def _inv_body(c):
+        S0, L = receive._frame(c)
+        buf = c.loc('buf')
+        return {'read-so-far': And(z3.Concat(buf, c.cur.f(STREAM, c['s'])) == z3.SubSeq(S0, 4, z3.Length(S0) - 4), z3.Length(buf) <= L),
+                'length': c.loc('length') == L}
+    loops = {'while len(buf) < 4': Loop(inv=_inv_head, modifies=[STREAM]), 'while len(buf) < length': Loop(inv=_inv_body, modifies=[STREAM])}
